@@ -50,6 +50,9 @@ class StringDiscretizer(BaseDiscretizer):
         if self.verbose:  # verbose if requested
             print(f" - [StringDiscretizer] Fit {str(self.features)}")
 
+        # checking for previous fits before modifying any attribute
+        self._check_is_not_fitted()
+
         # checking for binary target and copying X
         x_copy = self._prepare_data(X, y)  # X[self.features].fillna(self.str_nan)
 
